@@ -174,7 +174,7 @@ def gen_package(rng: random.Random, name: str) -> dict[str, str]:
 
 
 def shards(tier: str, seed: int) -> list[dict]:
-    n = 60 if tier == "quick" else 1600
+    n = 150 if tier == "quick" else 1600
     return [{"count": n} for _ in range(16)]
 
 
